@@ -346,7 +346,10 @@ static DirTol direct_tols(const EllObj& E, bool series, double lat1, double lon1
   Q salp, calp; ref::sincosd<Q>((Q)azi12, salp, calp);
   double m1 = (double)ref::fabs(R.merid(lat1)), dM = (double)ref::fabs((Q)s12 * calp);
   double Ls = lscale(E, lat1, r.lat2);
-  t.tol_m = kt * K_LEN * (EPS * (m1 + dM) + F_FLOOR * EPS * Ls);
+  // courses longer than one circuit of the meridian ellipse / of a parallel: the relative round-off of the huge
+  // rectifying latitude / longitude is all that matters there; allow 2 K eps for it (K eps within one circuit)
+  double mw = dM > 4 * E.Qm ? 2 : 1;
+  t.tol_m = kt * K_LEN * (mw * EPS * (m1 + dM) + F_FLOOR * EPS * Ls);
   t.R2 = (double)R.circle_radius(r.lat2); t.cond = 1; t.tol_pos = t.tol_m; t.tol_S = 0; t.area_ok = false;
   if (r.crossed || r.from_pole || r.at_pole || ref::isnan(r.lon12)) return t;
   double lam = (double)ref::fabs(r.lon12) * DEG, R2 = t.R2;
@@ -365,7 +368,8 @@ static DirTol direct_tols(const EllObj& E, bool series, double lat1, double lon1
     tol_lam = kt * K_LEN * EPS * lam + (R2 > 0 ? lam * (double)ref::fabs(s) / R2 * t.tol_m : 0);
     dQterm = (double)ref::fabs(Q2) * tol_lam + lam * R2 * t.tol_m;
   }
-  t.tol_pos = kt * K_LEN * (EPS * (std::fabs(s12) + R2 * lam) + F_FLOOR * EPS * Ls) * t.cond + t.tol_m + R2 * DEG * lonslack;
+  double mwl = lam > 2 * M_PI ? 2 : 1;
+  t.tol_pos = kt * K_LEN * (mwl * EPS * (std::fabs(s12) + R2 * lam) + F_FLOOR * EPS * Ls) * t.cond + t.tol_m + R2 * DEG * lonslack;
   t.tol_S = kt * K_AREA * EPS * E.A2 * lam + dQterm + E.A2 * 1e-290;
   t.area_ok = R2 > 0;
   return t;
